@@ -160,6 +160,13 @@ macro_rules! chain_fn {
     };
 }
 
+// std collection sources: chains of at most one stage (each collection is its own iterator type)
+fn chain_s1<P: Par<Item = Tok>>(p: P, scn: &Scenario, level: usize) -> Value {
+    let p = set_params(p, scn, level);
+    terminal_all(p, scn)
+}
+chain_fn!(chain_s0, chain_s1, terminal_all);
+
 fn chain_end<P: Par<Item = Tok>>(p: P, scn: &Scenario, level: usize) -> Value {
     let p = set_params(p, scn, level);
     terminal_core(p, scn)
@@ -285,6 +292,106 @@ pub fn run_pipeline(scn: &Scenario) -> Value {
                 };
             }
             chain0(p, scn, 0)
+        }
+        Src::Deque | Src::List | Src::BSet | Src::Heap | Src::BMap => {
+            use std::collections::{BTreeMap, BTreeSet, BinaryHeap, LinkedList, VecDeque};
+            if scn.ops.len() > 1 || is_with_index(scn) {
+                return Value::Unsupported;
+            }
+            let toks = make_toks(&scn.vals);
+            match scn.src {
+                Src::Deque => {
+                    // fill from both ends so that the ring buffer wraps
+                    let mut d: VecDeque<Tok> = VecDeque::with_capacity(toks.len().max(1));
+                    let half = toks.len() / 2;
+                    let mut front: Vec<Tok> = vec![];
+                    for (i, t) in toks.into_iter().enumerate() {
+                        if i < half {
+                            front.push(t);
+                        } else {
+                            d.push_back(t);
+                        }
+                    }
+                    while let Some(t) = front.pop() {
+                        d.push_front(t);
+                    }
+                    chain_s0(set_params(d.into_par(), scn, 0), scn, 0)
+                }
+                Src::List => {
+                    let l: LinkedList<Tok> = toks.into_iter().collect();
+                    chain_s0(set_params(l.into_par(), scn, 0), scn, 0)
+                }
+                Src::BSet => {
+                    let mut b: BTreeSet<Tok> = BTreeSet::new();
+                    for t in toks {
+                        b.insert(t);
+                    }
+                    chain_s0(set_params(b.into_par(), scn, 0), scn, 0)
+                }
+                Src::Heap => {
+                    let mut h: BinaryHeap<Tok> = BinaryHeap::new();
+                    for t in toks {
+                        h.push(t);
+                    }
+                    chain_s0(set_params(h.into_par(), scn, 0), scn, 0)
+                }
+                _ => {
+                    let mut m: BTreeMap<u32, Tok> = BTreeMap::new();
+                    for (i, t) in toks.into_iter().enumerate() {
+                        m.insert(bmap_key(i), t);
+                    }
+                    let p = set_params(m.into_par(), scn, 0).map(mk_pair_src());
+                    chain_s0(p, scn, 0)
+                }
+            }
+        }
+        Src::DequeRef | Src::ListRef | Src::BSetRef | Src::HeapRef | Src::BMapRef => {
+            use std::collections::{BTreeMap, BTreeSet, BinaryHeap, LinkedList, VecDeque};
+            if scn.ops.len() > 1 || is_with_index(scn) {
+                return Value::Unsupported;
+            }
+            let toks = make_toks(&scn.vals);
+            match scn.src {
+                Src::DequeRef => {
+                    let d: VecDeque<Tok> = toks.into_iter().collect();
+                    let r = chain_s0(set_params(d.par(), scn, 0).cloned(), scn, 0);
+                    drop(d);
+                    r
+                }
+                Src::ListRef => {
+                    let l: LinkedList<Tok> = toks.into_iter().collect();
+                    let r = chain_s0(set_params(l.par(), scn, 0).cloned(), scn, 0);
+                    drop(l);
+                    r
+                }
+                Src::BSetRef => {
+                    let mut b: BTreeSet<Tok> = BTreeSet::new();
+                    for t in toks {
+                        b.insert(t);
+                    }
+                    let r = chain_s0(set_params(b.par(), scn, 0).cloned(), scn, 0);
+                    drop(b);
+                    r
+                }
+                Src::HeapRef => {
+                    let mut h: BinaryHeap<Tok> = BinaryHeap::new();
+                    for t in toks {
+                        h.push(t);
+                    }
+                    let r = chain_s0(set_params(h.par(), scn, 0).cloned(), scn, 0);
+                    drop(h);
+                    r
+                }
+                _ => {
+                    let mut m: BTreeMap<u32, Tok> = BTreeMap::new();
+                    for (i, t) in toks.into_iter().enumerate() {
+                        m.insert(bmap_key(i), t);
+                    }
+                    let r = chain_s0(set_params(m.par(), scn, 0).map(mk_pair_ref_src()), scn, 0);
+                    drop(m);
+                    r
+                }
+            }
         }
     }
 }
